@@ -436,15 +436,16 @@ def run(ctx):
     # ------------------------------------------------------------------ scenarios
     scen = []
     full = [("new", True, "dd"), ("overwrite", False, "dd")]
+    small = bool(os.environ.get("C15_SMALL"))       # self-test knob: strides only
     for case, split, mode in full:
-        scen.append((gen_scenario(rng, case, split, mode), "all"))
+        scen.append((gen_scenario(rng, case, split, mode), "stride" if small else "all"))
     combos = [(c, s, m) for c in ("new", "overwrite") for s in (True, False) for m in ("dd", "opt")]
-    for rep in range(ctx.n(1, 6)):
+    for rep in range(ctx.n(1, 4)):
         for case, split, mode in combos:
             scen.append((gen_scenario(rng, case, split, mode), "all" if not quick else "stride"))
-    for rep in range(ctx.n(2, 8)):
+    for rep in range(ctx.n(2, 6)):
         scen.append((gen_scenario(rng, "newdir", rng.choice([True, False]), rng.choice(["dd", "opt"]),
-                                  nest=("x", "y")), "all"))
+                                  nest=("x", "y")), "stride" if small else "all"))
     for i, (sc, _) in enumerate(scen):
         sc["sid"] = i
     # dry runs: the sequence of calls of each scenario's writer
